@@ -243,8 +243,16 @@ impl World {
             .global_queue_interval(1)
             .thread_keep_alive(Duration::from_nanos(1))
             .on_thread_start(|| {
+                // spin briefly, then back off: on an oversubscribed machine a pure spin starves
+                // the very thread it is waiting for
+                let mut spins = 0u32;
                 while !BLOCKING_GATE.load(std::sync::atomic::Ordering::Acquire) {
-                    std::thread::yield_now();
+                    spins += 1;
+                    if spins < 200 {
+                        std::thread::yield_now();
+                    } else {
+                        std::thread::sleep(Duration::from_micros(50));
+                    }
                 }
             })
             .start_paused(true)
@@ -347,13 +355,19 @@ impl World {
         if let Some(rt) = self.rt.as_ref() {
             let m = rt.metrics();
             let t0 = std::time::Instant::now();
+            let mut spins = 0u32;
             loop {
                 if m.num_blocking_threads() <= self.ctrl.blocking_parked() && m.blocking_queue_depth() == 0 {
                     break;
                 }
-                std::thread::yield_now();
-                if t0.elapsed() > Duration::from_secs(30) {
-                    return harness("blocking pool busy for 30s");
+                spins += 1;
+                if spins < 200 {
+                    std::thread::yield_now();
+                } else {
+                    std::thread::sleep(Duration::from_micros(50));
+                }
+                if t0.elapsed() > Duration::from_secs(120) {
+                    return harness("blocking pool busy for 120s");
                 }
             }
         }
@@ -390,7 +404,6 @@ impl World {
         let ctrl = self.ctrl.clone();
         let hold = self.hold_blocking;
         let res: Result<(), String> = rt.block_on(async {
-            let t0 = std::time::Instant::now();
             loop {
                 BLOCKING_GATE.store(false, std::sync::atomic::Ordering::Release);
                 tokio::task::yield_now().await;
@@ -404,13 +417,22 @@ impl World {
                 BLOCKING_GATE.store(true, std::sync::atomic::Ordering::Release);
                 // wait for the blocking pool to drain (threads exit right after their job) before
                 // any other task runs; command calls parked on pool threads are accounted for
+                let w0 = std::time::Instant::now();
+                let mut spins = 0u32;
                 loop {
                     if m.num_blocking_threads() <= ctrl.blocking_parked() && m.blocking_queue_depth() == 0 {
                         break;
                     }
-                    std::thread::yield_now();
-                    if t0.elapsed() > Duration::from_secs(60) {
-                        return Err("tokio step: blocking pool busy for 60s".to_string());
+                    spins += 1;
+                    if spins < 200 {
+                        std::thread::yield_now();
+                    } else {
+                        std::thread::sleep(Duration::from_micros(50));
+                    }
+                    // (one wait, not the whole step: a long body through a small pipe makes a
+                    // step of thousands of iterations, and a loaded machine makes each slow)
+                    if w0.elapsed() > Duration::from_secs(120) {
+                        return Err("tokio step: blocking pool busy for 120s".to_string());
                     }
                 }
                 if m.global_queue_depth() == 0 && m.worker_local_queue_depth(0) == 0 {
